@@ -7,7 +7,7 @@ from lib import vlib
 from lib.vlib import tlc, tlc_require_ok, go_overlay_test, read_ndjson, sub, log
 
 V2_SOURCES = ["common/util_test.go"] + sorted("v2/" + f for f in os.listdir(os.path.join(vlib.OVERLAY, "v2")) if f.endswith("_test.go"))
-DEV_CONSTANTS = ["DevNoticeInSpan", "DevClampShift", "DevC11HyphenToken", "DevC11CleanedNotice"]
+DEV_CONSTANTS = ["DevNoticeInSpan", "DevClampShift", "DevC11HyphenToken", "DevC11CleanedNotice", "DevLineTouchSplit"]
 
 
 def open_devs(pid_list):
